@@ -691,6 +691,7 @@ def run(ctx):
     from rules import c17
     c17.rule_args(ctx, R="C06/reader-args")
     c17.rule_prefix_only(ctx, R="C06/reader-prefix-only")
+    c17.rule_reader_identity(ctx, R="C06/reader-identity")   # ... of THIS target: every reader is built for an identity of the target
     # a readable stack is left empty only when the caller asked for unreferenced stacks to be skipped (same rule instance as C20/decision-shape:
     # with skip off the truth table has no dropping row)
     from rules import c20
